@@ -334,7 +334,17 @@ def run(ctx):
             if n.kind != "stmt":
                 continue
             for c in ast.walk(n.stmt):
-                if isinstance(c, ast.Constant) and isinstance(c.value, str) and needle in c.value and (exclude is None or exclude not in c.value):
+                txt_ = None
+                if isinstance(c, ast.Constant) and isinstance(c.value, str):
+                    txt_ = c.value
+                elif isinstance(c, ast.Name) and c.id in getattr(md, "globals", {}):
+                    # a message template kept as a module-level string constant
+                    try:
+                        v_ = ast.literal_eval(md.globals[c.id])
+                        txt_ = v_ if isinstance(v_, str) else None
+                    except (ValueError, SyntaxError, TypeError):
+                        txt_ = None
+                if txt_ is not None and needle in txt_ and (exclude is None or exclude not in txt_):
                     out.append(n)
                     break
         return out
